@@ -76,6 +76,10 @@ def scoped_classes(repo):
     return out
 
 
+# R4 and R5 know the statement order / storage shape of the pinned tree; R7 and R6 decide the same clauses by behaviour
+DEFER = [(["C11.R4"], ["C11.R7"]), (["C11.R5"], ["C11.R6"])]
+
+
 def run(ctx):
     repo = ctx.repo
     r1 = ctx.rule(
@@ -180,6 +184,7 @@ def run(ctx):
     _r4_set_backend(ctx)
     _r5_callables(ctx)
     _r6_dispatch(ctx)
+    _r7_switch_histories(ctx)
 
 
 # ----------------------------------------------------------------------
@@ -629,3 +634,147 @@ def _r6_dispatch(ctx):
         ctx.violated(r6, trg_f, "subscribe/trigger history", f"raises {e.exc_name}", expected="live subscribers of that event called in order")
     except errs as e:
         ctx.unrecognised(r6, mod, "events history 3", f"not interpretable: {type(e).__name__}: {e}")
+
+
+BACKEND_CLASSES = {"numpy": ("src/pyhf/tensor/numpy_backend.py", "numpy_backend"), "jax": ("src/pyhf/tensor/jax_backend.py", "jax_backend"),
+                   "pytorch": ("src/pyhf/tensor/pytorch_backend.py", "pytorch_backend"), "tensorflow": ("src/pyhf/tensor/tensorflow_backend.py", "tensorflow_backend")}
+# process-global modes a backend's _setup may switch, and whether tensors created with an EXPLICIT dtype depend on them
+# (jax silently truncates float64 requests while x64 is off; torch's default dtype only matters without a dtype)
+MODES_AFFECTING_EXPLICIT_DTYPE = {"jax_enable_x64"}
+
+
+def _r7_switch_histories(ctx):
+    """set_backend interpreted over a model of the manager state, the retrievers and the event system, for histories of
+    switches; every backend's own _setup is interpreted when set_backend calls it."""
+    from ..alg import NotHandled, Obj, Poly, PyFunc, RaisedInFragment, Undecided
+    from ..objmodel import World
+    repo = ctx.repo
+    r7 = ctx.rule(
+        "C11.R7",
+        "SWITCH-HISTORY (interpreted): set_backend walked for histories of switches (name changes, precision-only changes in both "
+        "directions, no change, a backend object plus a precision keyword, default=True) over a model of the manager state: after "
+        "each call the current backend is the requested one at the requested precision; 'tensorlib_changed' fires exactly when name "
+        "or precision differ from the backend that was current BEFORE the call, after the state was replaced; and no process-wide "
+        "mode that explicit-dtype tensor creation depends on (jax x64) is switched by the backend's _setup after the refresh ran",
+        "HISTORY", floor=8,
+    )
+    sb = repo.func(MAN, "set_backend")
+    ctx.touch(sb)
+    errs = (Undecided, KeyError, TypeError, ValueError, IndexError, AttributeError)
+
+    def mk(name, precision):
+        return Obj("backend", {"name": name, "precision": precision, "__class__": f"{name}_backend"}, closed=True)
+
+    modes = {}
+    for rel_, _cn in BACKEND_CLASSES.values():  # what importing the backend modules has already switched (jax: x64 on)
+        for st_ in repo.module(rel_).tree.body:
+            if isinstance(st_, ast.Expr) and isinstance(st_.value, ast.Call) and A.call_attr(st_.value) == "update" and len(st_.value.args) == 2 and isinstance(A.const_value(st_.value.args[0]), str):
+                modes[A.const_value(st_.value.args[0])] = A.const_value(st_.value.args[1])
+    events_log = []
+    this = Obj("this", {"state": {}}, closed=True)
+
+    def backend_ctor(name):
+        def f(a, k):
+            unknown = set(k) - {"precision"}
+            if unknown or a:
+                raise RaisedInFragment("TypeError")
+            return mk(name, k.get("precision", "64b"))
+        return PyFunc(f, f"{name}_backend")
+
+    def opt_ctor(name):
+        return PyFunc(lambda a, k: Obj("optimizer", {"name": name, "conf": dict(k)}, closed=True), f"{name}_optimizer")
+
+    def setup(recv, a, k):
+        if not (isinstance(recv, Obj) and recv.name == "backend"):
+            raise NotHandled()
+        rel, cname = BACKEND_CLASSES[recv.attrs["name"]]
+        m = repo.cls(rel, cname).methods.get("_setup")
+        if m is None:
+            return None
+        ctx.touch(m)
+
+        def cfg_update(a2, k2):
+            if a2 and isinstance(a2[0], str):
+                modes[a2[0]] = a2[1] if len(a2) > 1 else None
+                return None
+            raise NotHandled()
+
+        def set_default_dtype(a2, k2):
+            modes["torch_default_dtype"] = str(getattr(a2[0], "name", a2[0]))
+            return None
+
+        from ..alg import Interp
+        dmap = {"float": Obj(f"float{recv.attrs['precision'][:2]}"), "int": Obj(f"int{recv.attrs['precision'][:2]}"), "bool": Obj("bool")}
+        it = Interp({"self": recv, "torch": Obj("torch"), "config": Obj("config"), "tf": Obj("tf"), "np": Obj("np")}, {"precision": recv.attrs["precision"], "name": recv.attrs["name"], "dtypemap": dmap}, {},
+                    cls_name=cname, externals={"__strict__": True, "update": cfg_update, "set_default_dtype": set_default_dtype, "set_floatx": lambda a2, k2: modes.__setitem__("tf_floatx", a2[0])})
+        it.run(A.strip_docstring(m.node.body))
+        return None
+
+    def trigger(a, k):
+        ev = a[0]
+
+        def fire(a2, k2):
+            cur = this.attrs["state"].get("current")
+            events_log.append((ev, (cur[0].attrs["name"], cur[0].attrs["precision"]) if cur else None, dict(modes)))
+        return PyFunc(fire, f"trigger[{ev}]")
+
+    def isinst(o, cls_):
+        if isinstance(o, Obj) and o.name == "backend" and isinstance(cls_, PyFunc):
+            return cls_.name == o.attrs["__class__"]
+        if isinstance(o, Obj) and o.name == "optimizer" and isinstance(cls_, PyFunc):
+            return cls_.name == f"{o.attrs['name']}_optimizer"
+        if isinstance(cls_, PyFunc) or isinstance(cls_, Obj):
+            return False
+        raise NotHandled()
+
+    try:
+        br = Obj("BackendRetriever", {f"{n}_backend": backend_ctor(n) for n in BACKEND_CLASSES}, closed=True)
+        orr = Obj("OptimizerRetriever", {"scipy_optimizer": opt_ctor("scipy"), "minuit_optimizer": opt_ctor("minuit")}, closed=True)
+        w = World({"__strict__": True, "._setup": setup, "trigger": trigger, "__isinstance__": isinst}, module_env={"this": this, "BackendRetriever": br, "OptimizerRetriever": orr, "events": Obj("events"), "exceptions": Obj("exceptions"), "log": Obj("log")})
+        w.add_func(sb)
+        first = mk("numpy", "64b")
+        this.attrs["state"]["default"] = (first, Obj("optimizer", {"name": "scipy", "conf": {}}, closed=True))
+        this.attrs["state"]["current"] = this.attrs["state"]["default"]
+    except errs as e:
+        ctx.unrecognised(r7, sb, "set_backend", f"world not buildable: {type(e).__name__}: {e}")
+        return
+    history = [
+        ("jax", {}, ("jax", "64b")), ("jax", {"precision": "32b"}, ("jax", "32b")), ("jax", {"precision": "64b"}, ("jax", "64b")), ("jax", {}, ("jax", "64b")),
+        ("pytorch", {"precision": "32b"}, ("pytorch", "32b")), ("pytorch", {"precision": "64b"}, ("pytorch", "64b")), ("numpy", {"default": True}, ("numpy", "64b")),
+        ("OBJECT:pytorch:64b", {"precision": "32b"}, ("pytorch", "32b")), ("OBJECT:pytorch:64b", {}, ("pytorch", "64b")),
+        ("OBJECT:pytorch:64b", {"precision": "32b"}, ("pytorch", "32b")),  # same name, the OBJECT says 64b, the keyword wins: a precision-only change
+        ("tensorflow", {"precision": "32b"}, ("tensorflow", "32b")),
+        ("tensorflow", {"precision": "64b"}, ("tensorflow", "64b")), ("numpy", {"precision": "32b"}, ("numpy", "32b")), ("numpy", {}, ("numpy", "64b")),
+    ]
+    for step, (arg, kw, want) in enumerate(history):
+        before = this.attrs["state"]["current"][0]
+        prev = (before.attrs["name"], before.attrs["precision"])
+        label = f"step {step + 1}: set_backend({arg.split(':')[1] + ' backend object (' + arg.split(':')[2] + ')' if arg.startswith('OBJECT') else repr(arg)}{''.join(', %s=%r' % kv for kv in kw.items())}) after {prev[0]} {prev[1]}"
+        del events_log[:]
+        a0 = mk(*arg.split(":")[1:]) if arg.startswith("OBJECT") else arg
+        try:
+            w.call_func(sb, [a0], dict(kw))
+        except RaisedInFragment as e:
+            ctx.violated(r7, sb, label, f"a valid switch raises {e.exc_name}", expected=f"current backend {want}")
+            continue
+        except errs as e:
+            ctx.unrecognised(r7, sb, label, f"not interpretable: {type(e).__name__}: {e}")
+            return
+        cur = this.attrs["state"]["current"][0]
+        got = (cur.attrs.get("name"), cur.attrs.get("precision")) if isinstance(cur, Obj) else None
+        fired = [e_ for e_ in events_log if e_[0] == "tensorlib_changed"]
+        should = prev != want
+        final_modes = dict(modes)
+        if got != want:
+            ctx.violated(r7, sb, label, f"the current backend after the call is {got}", expected=str(want), found=str(got))
+        elif should and not fired:
+            ctx.violated(r7, sb, label, f"the backend changed from {prev} to {want} and 'tensorlib_changed' is not triggered: every model, interpolator and viewer alive keeps tensors of the previous backend / precision", expected="one trigger", found="none")
+        elif not should and fired:
+            ctx.violated(r7, sb, label, "nothing changed and 'tensorlib_changed' is triggered", expected="no trigger", found=f"{len(fired)}")
+        elif fired and fired[0][1] != want:
+            ctx.violated(r7, sb, label, f"'tensorlib_changed' fires while the manager still reports {fired[0][1]} as current: the refresh callbacks recompute against the OLD backend", expected=str(want), found=str(fired[0][1]))
+        elif fired and any(fired[0][2].get(m_) != final_modes.get(m_) for m_ in MODES_AFFECTING_EXPLICIT_DTYPE if m_ in final_modes):
+            m_ = next(m_ for m_ in MODES_AFFECTING_EXPLICIT_DTYPE if m_ in final_modes and fired[0][2].get(m_) != final_modes.get(m_))
+            ctx.violated(r7, sb, label, f"the refresh callbacks of 'tensorlib_changed' run while the process-wide mode `{m_}` is still {fired[0][2].get(m_)}; the new backend's _setup switches it to {final_modes.get(m_)} only afterwards, so every surviving object is refreshed with tensors of the wrong width", expected="mode switched before the refresh (or not at all)", found="switched after")
+        else:
+            ctx.holds(r7, f"{MAN}::{label}", f"current {want}; trigger {'fired after the swap' if fired else 'not fired'}")
